@@ -2,6 +2,12 @@ NOTES = ('Bounded-exhaustive model checking of the real implementation; see DESI
          'Known genuine defects are listed in known_findings.json.')
 NOT_APPLICABLE = {}
 CHECKS = {
+ 'C07': dict(engine='E3', design_ref='4/C07',
+    technique='exhaustive enumeration (full product structure kind x force-set letters x load factor x restraint pattern; all panel sequences up to a length; bay compositions x force placement) with a complete unit-amplitude basis per case; real calc_fext/static vs virtual work through the package field report and K c = f residuals',
+    text='For every case and every unit amplitude vector the product fext.e_k must equal the sum over forces of force times the displacement the package reports at the force location '
+         '(incrementable forces scaled by the load factor); by linearity this decides the statement for all amplitude vectors. Linear static solutions must satisfy K c = f on active amplitudes, '
+         'vanish on amplitudes without stiffness and be homogeneous/additive in the loads (edges between real executions).',
+    note='static checks only for restraint patterns that make K positive definite on the active amplitudes, as the statement presupposes; bays use compmech.analysis.static as the tests do'),
  'C12': dict(engine='E3', design_ref='4/C12',
     technique='exhaustive enumeration (full product connection kind x interface positions x panel-pair letters x order in the global vector x leading panel; penalty-constant routes) on the real PanelAssembly.get_k0_conn / connection kernels / calc_kt_kr against the quadrature Hessian of the interface mismatch energy',
     text='Every connection matrix is compared with the Hessian of kt/2 Int|jump u|^2 + kr/2 Int(jump rotation)^2 evaluated with both panels own series at their offsets in the global vector; '
